@@ -24,7 +24,7 @@ RULE = ("seeded scenarios. Network kind: parent-closed topology of 2..8 addresse
         "absent) or halted; histories (<= 12 calls, up to 3 in flight on different nodes) of write/send (direct, routed, to self, "
         "traffic_direct), multicast, node_address=, multicast_level=, MCU crash+restart (fresh object on the still running radio), pass-through radio attributes (interrupt_config, pa_level, channel, getters; power = False / listen = False by the application, after which the node's next transmission must leave it listening again), "
         "re-configuration of address prefix/suffix/allow_multicast followed by node_address re-assignment, "
-        "fragmented and single-frame, ack and non-ack types. Mesh "
+        "fragmented and single-frame, ack and non-ack types; two targeted families on a fixed tree (a routed fragmented message that loses every copy of a later fragment after the first NETWORK_ACK came back; a router that has to pass its child's message on while it waits for a NETWORK_ACK that never arrives). Mesh "
         "kind: master + 1..3 mesh nodes with histories of renew_address, release_address, lookup_address, lookup_node_id, "
         "check_connection(both modes), send, write. Faults: packet/ACK loss ordinals, all ACKs of one node lost, NETWORK_ACK "
         "frames dropped, blackout windows, MCU jitter and stalls. The invariant is evaluated after every public call of every "
@@ -40,7 +40,7 @@ MAX_INCONCLUSIVE = 0.03
 
 
 def count(tier):
-    return 400 if tier == "quick" else 16000
+    return 1200 if tier == "quick" else 16000
 
 
 def exhaustive(tier):
@@ -119,6 +119,32 @@ def make(i, base_seed, tier):
             else:
                 ops.append({"node": who, "op": "settle"})
         scn.update({"nodes": nodes, "ops": ops, "tx_timeout": rng.choice([5, 25]), "route_timeout": rng.choice([15, 75])})
+        xr = stream(seed, "ext")
+        fam = xr.random()
+        if fam < 0.2:
+            # two targeted families on a fixed tree 0 / 1, 2 / 11, 12 (all nodes running): (frag_abort) a routed fragmented message loses
+            # every copy of its 2nd (or last) fragment after the first fragment's NETWORK_ACK came back;  (forward_while_waiting) a
+            # router waits for a NETWORK_ACK that never arrives while its child's message has to be passed on through it.
+            # Afterwards the usual seeded calls follow
+            topo_ = [0, 0o1, 0o2, 0o11, 0o12]
+            scn["nodes"] = [{"addr": a, "cls": "net", "state": "up", "knobs": random_mcu_knobs(kr, fault=False)} for a in topo_]
+            rest = [o for o in ops if o["node"] in topo_ and o["op"] in ("write", "multicast", "multicast_level", "settle") and o.get("dst", 0) in topo_][:4]
+            if fam < 0.1:
+                n_ = xr.choice([30, 48, 50, 72, 100, 144])
+                scn["faults"] = [{"src": "n%s" % 0o1, "ack": False, "ptype": 150 if n_ <= 48 else xr.choice([149, 150])}]
+                first = [{"node": 0o1, "op": "write", "dst": 0o12, "len": n_, "type": xr.choice([0, 1, 65, 100]), "seed": xr.getrandbits(20), "direct": None,
+                          "api": xr.choice(["write", "send"]), "async": False}]
+                scn["family"] = "frag_abort"
+            else:
+                scn["faults"] = [{"ack": False, "ptype": 193}]
+                first = [{"node": 0o1, "op": "write", "dst": 0o12, "len": xr.choice([0, 5, 24]), "type": xr.choice([65, 100, 127]), "seed": xr.getrandbits(20), "direct": None,
+                          "api": "write", "async": True},
+                         {"node": 0o11, "op": "write", "dst": xr.choice([0o2, 0o12, 0]), "len": xr.choice([0, 5, 24]), "type": xr.choice([1, 65, 100]), "seed": xr.getrandbits(20),
+                          "direct": None, "api": "write", "async": True},
+                         {"node": 0o1, "op": "settle"}]
+                scn["family"] = "forward_while_waiting"
+                scn["route_timeout"] = 75
+            scn["ops"] = first + rest
     else:
         ids = rng.sample(range(1, 255), rng.randint(1, 3))
         scn["master_knobs"] = random_mcu_knobs(kr, fault=bool(faults))
